@@ -273,6 +273,39 @@ fn digest_ops(out: &mut Out, rng: &mut Rng, p: &Pair, src: &str) -> (StateDigest
         }
         out.op(l, a);
     }
+    // the simulator path answers in KEY order (fix dc1be9d): the same buckets and the same limit
+    // on both maps; for two maps of the same state the answers must be identical, whatever the
+    // two iteration orders are
+    {
+        let buckets: Vec<usize> = (0..(1usize << p.depth)).filter(|_| rng.chance(2, 3)).collect();
+        let limit = match rng.below(3) { 0 => 1, 1 => rng.range(1, p.a.len().max(1) as u64) as usize, _ => 1000 };
+        let mut mgr = AntiEntropyManager::new(ReplicaId::new(1), AntiEntropyConfig::default());
+        mgr.config.merkle_tree_depth = p.depth;
+        mgr.config.max_keys_per_sync = limit;
+        let mut answers: Vec<Vec<String>> = Vec::new();
+        for (slot, s) in [("a", &p.a), ("b", &p.b)] {
+            let ks: Vec<String> = mgr.get_keys_in_buckets(s, &buckets).into_iter().map(|d| d.key).collect();
+            let mut l = format!("G {} {} {}", slot, limit, buckets.len());
+            for b in &buckets {
+                l.push_str(&format!(" {}", b));
+            }
+            out.op(l, std::iter::once("g".to_string()).chain(ks.iter().map(|k| hex(k.as_bytes()))).collect::<Vec<_>>().join(" "));
+            if !ks.windows(2).all(|w| w[0] < w[1]) {
+                out.violation("C18:sim:response-not-in-key-order", "get_keys_in_buckets does not answer in ascending key order",
+                    json!({"depth": p.depth, "limit": limit, "buckets": buckets, "answer": ks, "iteration_order": s.keys().collect::<Vec<_>>(), "source": src}));
+            }
+            answers.push(ks);
+        }
+        if canon(&p.a) == canon(&p.b) {
+            out.count(if limit < p.a.len() { "sim-response:equal-states:limit<keys" } else { "sim-response:equal-states:limit>=keys" });
+            if answers[0] != answers[1] {
+                out.violation("C18:sim:response-depends-on-map-order",
+                    &format!("get_keys_in_buckets (limit {}) answers {:?} for one map and {:?} for another map holding the same state: the answer depends on the HashMap iteration order", limit, answers[0], answers[1]),
+                    json!({"depth": p.depth, "limit": limit, "buckets": buckets, "state": show_state("s", &p.a), "answer_a": answers[0], "answer_b": answers[1],
+                           "iteration_order_a": p.a.keys().collect::<Vec<_>>(), "iteration_order_b": p.b.keys().collect::<Vec<_>>(), "source": src}));
+            }
+        }
+    }
     oracle_digests(out, &p.a, &p.b, &da, &db, p.depth, src);
     // run-time check of the ideal-hash assumptions on the values actually used
     let mut kh: BTreeMap<u64, &String> = BTreeMap::new();
